@@ -316,3 +316,40 @@ add("C12", "benign: reorder slots", CORE,
     "        \"_type\",\n        \"_meta\",\n        \"_hash\",\n    )\n\n    def __eq__", "        \"_meta\",\n        \"_type\",\n        \"_hash\",\n    )\n\n    def __eq__", "silent")
 add("C12", "benign: store a str in meta", "sqlglot/optimizer/qualify_tables.py",
     "        db.meta[\"is_table\"] = True\n", "        db.meta[\"is_table\"] = True\n        db.meta[\"origin\"] = \"qualify\"\n", "silent")
+
+# ------------------------------------------------------------------------------- C13
+TCORE = "sqlglot/tokenizer_core.py"
+add("C13", "off-by-one _char in the str.find fast path", TCORE,
+    "                self._char = sql[end]\n", "                self._char = sql[end + 1]\n", "C13.a")
+add("C13", "fast path forgets to update _col on one branch", TCORE,
+    "                else:\n                    self._col += end - pos\n\n                self._current = end + 1",
+    "                else:\n                    pass\n\n                self._current = end + 1", "C13.a")
+add("C13", "_peek computed from the old offset in _advance", TCORE,
+    "        self._peek = \"\" if self._end else sql[self._current]\n\n        if alnum",
+    "        self._peek = \"\" if self._end else sql[self._current - 1]\n\n        if alnum", "C13.a")
+add("C13", "alnum fast path advances offset but not column", TCORE,
+    "            while _peek.isalnum():\n                _col += 1\n                _current += 1\n",
+    "            while _peek.isalnum():\n                _current += 1\n", "C13.a")
+add("C13", "_end compared with > instead of >=", TCORE,
+    "                self._end = self._current >= self.size\n                self._char = sql[end]",
+    "                self._end = self._current > self.size\n                self._char = sql[end]", "C13.a")
+add("C13", "token end stamped exclusive", TCORE,
+    "                end=self._current - 1,\n", "                end=self._current,\n", "C13.b")
+add("C13", "token col stamped from line", TCORE,
+    "                col=self._col,\n", "                col=self._line,\n", "C13.b")
+add("C13", "_find_sql drops the +1", P,
+    "        return self.sql[start.start : end.end + 1]\n", "        return self.sql[start.start : end.end]\n", "C13.c")
+add("C13", "_is_connected treats end as exclusive", P,
+    "prev.end + 1 == curr.start", "prev.end == curr.start", "C13.c")
+add("C13", "highlight_sql treats end as exclusive", "sqlglot/errors.py",
+    "        highlight_end = end + 1\n", "        highlight_end = end\n", "C13.c")
+add("C13", "raise_error reports col from the token start offset", P,
+    "            line=token.line,\n            col=token.col,\n", "            line=token.line,\n            col=token.start,\n", "C13.d")
+add("C13", "raise_error highlights another token", P,
+    "            positions=[(token.start, token.end)],\n", "            positions=[(self._prev.start, token.end)],\n", "C13.d")
+add("C13", "update_positions crosses start and end", CORE,
+    "            meta[\"start\"] = other.start\n            meta[\"end\"] = other.end\n",
+    "            meta[\"start\"] = other.end\n            meta[\"end\"] = other.start\n", "C13.d")
+add("C13", "benign: cache self._current in a local in _add", TCORE,
+    "        if text is None:\n            text = self.sql[self._start : self._current]\n",
+    "        cur = self._current\n        if text is None:\n            text = self.sql[self._start : cur]\n", "silent")
